@@ -540,7 +540,14 @@ def frame_check_enter(ctx, rule="T1-checkEnter"):
     rets = [n for n in R.cfg.nodes if n.kind == "return"]
     true_rets = [r for r in rets if isinstance(r.ast.value, ast.Constant) and r.ast.value.value is True]
     false_rets = [r for r in rets if isinstance(r.ast.value, ast.Constant) and r.ast.value.value is False]
-    bl = R.need(loops_over(R, "self.beacts"), "loop over self.beacts")
+    bl = loops_over(R, "self.beacts")
+    if not bl and any(isinstance(x, ast.Attribute) and x.attr == "beacts" for x in ast.walk(fr)):
+        # the conditions are still consulted, but not one by one with a refusal at the first that fails
+        ctx.bad(rule, fr, "Frame.checkEnter does not loop over self.beacts refusing at the first unsatisfied condition",
+                "every before-enter condition must hold (a conjunction): `any(..)` over the conditions, or a count, lets a frame in "
+                "when one of two `let me if` conditions holds - a start fiat then reports success for a slave that must stay stopped")
+        return
+    bl = R.need(bl, "loop over self.beacts")
     al = R.need(loops_over(R, "self.auxes"), "loop over self.auxes in Frame.checkEnter")
     ok = bool(true_rets) and len(true_rets) + len(false_rets) == len(rets)
     for r in true_rets:
